@@ -143,6 +143,10 @@ def run_hist(h):
                     c[op[2]:op[2] + len(op[3])] = bytes(op[3])
             elif t == "grow":
                 b.grow(op[1]); views = []
+            elif t == "clone":
+                import pickle, copy
+                b = pickle.loads(pickle.dumps(b)) if op[1] == "pickle" else copy.deepcopy(b)
+                views = []
             elif t == "new_buffer":
                 res = native_bytes(b._new_buffer(op[1]))
         except BaseException as e:  # noqa
@@ -166,7 +170,7 @@ def gen_ops(rng, kind, cap, nops, single=None):
     for _ in range(nops):
         t = single or rng.choice(["upd_native", "copy_to_native", "to_native", "to_bytearray", "upd_buffer", "upd_buffer",
                                   "upd_nplike", "upd_nplike", "upd_xbuffer", "mk_view", "read_view", "write_view",
-                                  "read_copy", "write_copy", "grow", "new_buffer"])
+                                  "read_copy", "write_copy", "grow", "new_buffer", "clone"])
         off = rng.randint(0, cur); n = rng.randint(0, cur - off)
         if t == "upd_native":
             sl = n + rng.randint(0, 4); soff = rng.randint(0, sl - n)
@@ -232,6 +236,15 @@ def gen_ops(rng, kind, cap, nops, single=None):
             g = rng.choice([0, 1, 3, 8]); ops.append([t, g]); cur += g; views = []
         elif t == "new_buffer":
             ops.append([t, rng.randint(0, 6)])
+        elif t == "clone":
+            # the buffer object is replaced by a pickled / deep-copied clone of itself (same bytes, storage of its
+            # own); the views asked of the original are asked again of the clone, with the same parameters
+            again = [o for o in ops if o[0] == "mk_view"][-2:] if views else []
+            ops.append([t, rng.choice(["pickle", "deepcopy"])]); views = []
+            for o in again:
+                ops.append(list(o)); cnt = 1
+                for d in o[3]: cnt *= d
+                views.append((o[1], cnt * np.dtype(o[2]).itemsize))
     return ops
 
 
